@@ -95,6 +95,14 @@ CHECKS.update({
               "is compiled together with its Unroll twin (Facto!Unroll); entity conditions, placed entities and exported values of both "
               "builds are judged against the interpreter and compared in lock-step."),
         design="DESIGN 7 C15/C16", technique="TLC lock-step product of a program's build and its specification-computed unrolled twin"),
+    "C17": dict(
+        text=("(1) The import preprocessor's design model Import.tla is model-checked exhaustively (all 28561 import relations over main + 3 "
+              "files with <= 2 imports each) for 'inlined at most once', a bounded expansion stack and the liveness property Terminates. "
+              "(2) Nine import graphs (chain, diamond, same file twice, 2- and 3-cycles, self import) are compiled by file from two working "
+              "directories: the recorded import events must form a complete behaviour of Import, and both builds are judged against the "
+              "interpreter and in lock-step against the pasted twin (Facto!Paste). (3) Every function of lib/math.facto is judged against "
+              "its documented mathematical definition over the boundary domain (arguments whose documented formula overflows are skipped)."),
+        design="DESIGN 7 C17, 3.5 Import", technique="TLC design model incl. liveness + trace validation of import hook events + twin refinement + library contracts"),
     "C20": dict(
         text=("For every program of the scalar core, optimised and unoptimised build: producer label carries name and line, exactly one empty "
               "anchor labelled with the name (or a constant producer), the anchor reads the interpreter's value on the result's own signal, every "
